@@ -131,6 +131,28 @@ func (st *yamlStyle) factorDoc(doc orderedJSON) (*yaml.Node, any) {
 					count++
 					name := fmt.Sprintf("b%d", count)
 					base := &yaml.Node{Kind: yaml.MappingNode, Tag: "!!map", Anchor: name}
+					if st.rng.Intn(3) == 0 {
+						// ... or the LAST keys do, the merge key written behind the explicit ones; the base also carries one
+						// of the explicit keys (under its canonical spelling, whatever spelling the mapping itself uses):
+						// the explicit value stays, the merged keys stand at the end
+						base.Content = append(base.Content, child.Content[2*j:]...)
+						baseDen := append(orderedJSON{}, m[j:]...)
+						o := st.rng.Intn(j)
+						ov := fmt.Sprintf("overridden-%d", count)
+						pos := st.rng.Intn(len(m) - j + 1)
+						rest := append([]*yaml.Node{st.strNode(m[o][0].(string)), st.strNode(ov)}, base.Content[2*pos:]...)
+						base.Content = append(base.Content[:2*pos:2*pos], rest...)
+						baseDen = append(baseDen[:pos:pos], append(orderedJSON{{m[o][0], ov}}, baseDen[pos:]...)...)
+						bases.Content = append(bases.Content, base)
+						denoted = append(denoted, baseDen)
+						merged := &yaml.Node{Kind: yaml.MappingNode, Tag: "!!map", Style: child.Style}
+						merged.Content = append(merged.Content, child.Content[:2*j]...)
+						merged.Content = append(merged.Content,
+							&yaml.Node{Kind: yaml.ScalarNode, Tag: "!!merge", Value: "<<"},
+							&yaml.Node{Kind: yaml.AliasNode, Alias: base, Value: name})
+						n.Content[2*i+1] = merged
+						continue
+					}
 					base.Content = append(base.Content, child.Content[:2*j]...)
 					baseDen := append(orderedJSON{}, m[:j]...)
 					if st.rng.Intn(2) == 0 {
